@@ -30,6 +30,10 @@ type Op struct {
 	Root string `json:"root,omitempty"` // root path for schema validators
 	// Fault > 0: the format registry panics at its Fault-th Validates call (C11)
 	Fault int `json:"fault,omitempty"`
+	// Reg "custom": the caller supplies another registry (knows only x-even); Opts "swagger": the
+	// Swagger strictness options are switched on
+	Reg  string `json:"reg,omitempty"`
+	Opts string `json:"opts,omitempty"`
 }
 
 // faultRegistry is strfmt.Default whose k-th Validates call panics.
@@ -52,7 +56,17 @@ func (f faultRegistry) Validates(name, data string) bool {
 // LastFormatCalls is the number of Validates calls made by the last op run with a counting registry.
 var LastFormatCalls int
 
+func (o Op) options() []validate.Option {
+	if o.Opts == "swagger" {
+		return []validate.Option{validate.SwaggerSchema(true)}
+	}
+	return nil
+}
+
 func (o Op) registry() strfmt.Registry {
+	if o.Reg == "custom" {
+		return customRegistry
+	}
 	if o.Fault == 0 {
 		return strfmt.Default
 	}
@@ -63,6 +77,9 @@ func (o Op) registry() strfmt.Registry {
 func (o Op) String() string {
 	if o.Fault > 0 {
 		return fmt.Sprintf("%s(%s ⊢ %s, format checker panics at call %d)", o.Kind, o.Def, o.Val, o.Fault)
+	}
+	if o.Reg != "" || o.Opts != "" {
+		return fmt.Sprintf("%s(%s ⊢ %s, registry=%s options=%s)", o.Kind, o.Def, o.Val, o.Reg, o.Opts)
 	}
 	return fmt.Sprintf("%s(%s ⊢ %s)", o.Kind, o.Def, o.Val)
 }
@@ -180,13 +197,13 @@ func (o Op) Run() (out hx.Outcome) {
 		if err != nil {
 			return hx.Outcome{Panic: "bad schema: " + err.Error()}
 		}
-		return againstNoReset(sch, goValueOrJSON(o.Val), o.registry())
+		return againstNoReset(sch, goValueOrJSON(o.Val), o.registry(), o.options()...)
 	case "recyc", "plain":
 		sch, err := parseSpecSchema(o.Def)
 		if err != nil {
 			return hx.Outcome{Panic: "bad schema: " + err.Error()}
 		}
-		var opts []validate.Option
+		opts := o.options()
 		if o.Kind == "recyc" {
 			opts = append(opts, validate.WithRecycleValidators(true))
 		}
@@ -232,8 +249,8 @@ func goValueOrJSON(v string) any {
 	return parseInstance(v)
 }
 
-func againstNoReset(sch *spec.Schema, inst any, reg strfmt.Registry) hx.Outcome {
-	e := validate.AgainstSchema(sch, inst, reg)
+func againstNoReset(sch *spec.Schema, inst any, reg strfmt.Registry, opts ...validate.Option) hx.Outcome {
+	e := validate.AgainstSchema(sch, inst, reg, opts...)
 	if e == nil {
 		return hx.Outcome{Valid: true}
 	}
